@@ -526,3 +526,24 @@ func (p *Prog) Method(short, typ, name string) *types.Func {
 	anchorf("method %s.%s.%s", short, typ, name)
 	return nil
 }
+
+// LookupTypeAny is LookupType for packages that are only imported (not
+// loaded as roots).
+func (p *Prog) LookupTypeAny(short, name string) *types.Named {
+	if p.HasPkg(short) {
+		return p.LookupType(short, name)
+	}
+	for _, pk := range p.pkgs {
+		for _, imp := range pk.Types.Imports() {
+			if Short(imp.Path()) == short {
+				if tn, ok := imp.Scope().Lookup(name).(*types.TypeName); ok {
+					if n, ok := types.Unalias(tn.Type()).(*types.Named); ok {
+						return n
+					}
+				}
+			}
+		}
+	}
+	anchorf("type %s.%s", short, name)
+	return nil
+}
